@@ -341,7 +341,18 @@ pub fn run_c19(cx: &Ctx) -> i32 {
             }
             // T4/T5/T6 AST-level
             for (nm, r) in ast_respellings(node) {
-                variants.push((nm.to_string(), ast::to_pattern(&r), true));
+                let rp = ast::to_pattern(&r);
+                // possessive <-> atomic must also hold under a leading flag (swap-greed changes what
+                // the quantifier inside means, for both spellings alike)
+                if nm.starts_with("T6") {
+                    for f in ["U", "i", "s"] {
+                        variants.push((format!("{} under (?{}) [pair]", nm, f), format!("(?{}){}{}(?{}){}", f, pattern, '\u{0}', f, rp), true));
+                    }
+                }
+                variants.push((nm.to_string(), rp, true));
+            }
+            if node.any(&|n| matches!(n, Node::Repeat(..))) {
+                variants.push(("T7 quantifier spellings under (?U) [pair]".into(), format!("(?U){}{}(?U){}", pattern, '\u{0}', ast::to_pattern_verbose_quantifiers(node)), true));
             }
             if has_raw && !pattern.contains("[") {
                 let r = pattern.replace("\\h", "[0-9A-Fa-f]").replace("\\e", "\\x1B");
